@@ -8,7 +8,7 @@
     satisfies [InvS] the refreshing edits re-establish it ([refresh_establishes]). *)
 From Coq Require Import Ascii String List Bool PArith NArith ZArith QArith FMapPositive Permutation Lia.
 From PTBase Require Import Exn PyStr.
-From P Require Import Assoc GeoState GeoEdit GeoEdit2 GeoStep Inv InvNames InvSimple Sets InvCol InvConn InvDel InvRefresh InvRename InvCompound InvSplit InvSplit2 InvSnap InvDecomp InvRefine.
+From P Require Import Assoc GeoState GeoEdit GeoEdit2 GeoStep Inv InvNames InvSimple Sets InvCol InvConn InvDel InvRefresh InvRename InvCompound InvSplit InvSplit2 InvSnap InvDecomp InvRefine InvCheck.
 Import ListNotations.
 Open Scope list_scope.
 
@@ -34,9 +34,9 @@ Definition preS (g : geo) (o : op) : Prop :=
   | DecomposeCols names hs hmiss => forall g1, decompose_each g names hs = Ok g1 -> conns_ok g1 hmiss
   | CopyLayers _ | SnapLayers _ _ | SnapNearest _ | FitSurface _ _ _ | Translate _ _ _ | MoveNodes _ _ => True
   | RefineLayers _ _ => S3b g                (* (the proof goes through the whole invariant of the rebuilt layers) *)
-  | CheckFix hmiss _ => conns_ok g hmiss                (* each added connection joins columns sharing a side *)
-  | Reduce names hmiss _ =>
-      forall g1, delete_columns g (map (cn g) (filter (fun c => negb (existsb (fun n => match cget g n with Some x => Pos.eqb x c | None => false end) names)) (clist g))) = Ok g1 -> conns_ok g1 hmiss
+  (* the mesh is conforming as far as the missing connections need it: two columns with two or more common nodes have two
+     consecutive common nodes (the connections that are added then join two different columns sharing a side) *)
+  | CheckFix _ _ | Reduce _ _ _ => shares_side g
   end.
 
 Theorem step_invS g o g' : InvS g -> preS g o -> step g o = Ok g' -> InvS g'.
@@ -63,8 +63,8 @@ Proof.
   - eapply set_num_layers_invS; eauto.
   - eapply setup_block_name_index_invS; eauto.
   - eapply setup_block_connection_name_index_invS; eauto.
-  - eapply check_fix_invS; eauto.
-  - eapply reduce_invS; eauto.
+  - eapply check_fix_invS_conforming; eauto.
+  - eapply reduce_invS_conforming; eauto.
   - eapply refine_invS; eauto.
   - destruct (triangulate_column g n) as [[g1 l]|] eqn:E; cbn [bind fst] in H; [|discriminate]. inversion H; subst g'.
     eapply triangulate_column_invS; eauto.
@@ -101,9 +101,10 @@ Definition pre (g : geo) (o : op) : Prop :=
   | DecomposeCols _ _ _ => fx_nbr (fx g) = true
   (* triangulate_column does not refresh the name lists: see triangulate_column_keeps *)
   | Triangulate _ => False
-  (* kept only up to the clauses named in InvCompound.v (neighbour sets after a repair in the source as it stands;
-     reduce on a valid mesh: reduce_inv_clean) *)
-  | CheckFix _ _ | Reduce _ _ _ => False
+  (* repaired source: add_/delete_connection keep the neighbour sets (aa68858); check(fix) sets up the connection name
+     index again (proposed_fixes/C10-check-fix-name-index.diff); no layer needs fixing *)
+  | CheckFix _ _ => fx_nbr (fx g) = true /\ fx_check (fx g) = true /\ layers_fine g
+  | Reduce _ _ _ => fx_nbr (fx g) = true /\ layers_fine g
   end.
 
 Theorem step_inv g o g' : Inv g -> pre g o -> step g o = Ok g' -> Inv g'.
@@ -131,7 +132,8 @@ Proof.
   - eapply set_num_layers_inv; eauto.
   - eapply setup_block_name_index_inv; eauto.
   - eapply setup_block_connection_name_index_inv; eauto.
-  - destruct P. - destruct P.
+  - destruct P as [P1 [P2 P3]]. eapply check_fix_inv; eauto.
+  - destruct P as [P1 P2]. eapply reduce_inv; eauto.
   - eapply refine_inv; eauto.
   - destruct P.
   - eapply decompose_columns_inv; eauto.
